@@ -102,7 +102,9 @@ impl Rat {
     pub fn to_f64_up_abs(&self) -> f64 {
         // an f64 that is >= |self| (used for error bounds)
         let v = self.abs().to_f64();
-        v * (1.0 + 4.0 * f64::EPSILON) + f64::MIN_POSITIVE
+        // upper estimate: a few ulps above the rounded value (plus the smallest subnormal so that it is
+        // strictly above for tiny values)
+        v * (1.0 + 4.0 * f64::EPSILON) + f64::from_bits(4)
     }
     pub fn floor(&self) -> BigInt {
         self.n.div_floor(&self.d)
